@@ -93,7 +93,7 @@ SRC = {
     "C16": "EvolutionaryAlgorithm._get_n_jobs (= normJobs), _split_population (= Split.split on the points np.linspace(0, pop_size, n_jobs + 1) - which points are asked for is part of the statement; with C16_split the chunks are non-empty and cover the population once)",
     "C17": "EvolutionaryAlgorithm._update_data (what is recorded per generation: the generation's own series, and max_fitness / max_g / max_ph taken at the same index, the first maximum of the fitness series)",
     "C20": "the elementwise numpy code of OneMax.f, Sphere.f, Schwefe1_2.f, Rosenbrock.f, Rastrigin.f (floats read as field elements through TFV.Model.NpQ, cos(2*pi*a) a parameter: on every rectangular population they compute, row by row, sum / sphere / schwefel12 / rosenbrock / rastrigin of the model, whose bounds and optima C20_sphere ... C20_rastrigin prove)",
-    "C19": "the integer counting loops of recall_score, precision_score and f1_score (= recallLoop / precisionLoop / f1Loop; in range on admissible labels); accuracy_score (equality mask, integer cast, mean = Metrics.accuracy for equally long non-empty label vectors; other inputs rejected); the mean squared error inside root_mean_square_error (= Metrics.mse; the square root is taken of exactly that value)",
+    "C19": "the integer counting loops of recall_score, precision_score and f1_score (= recallLoop / precisionLoop / f1Loop; in range on admissible labels); accuracy_score (equality mask, integer cast, mean = Metrics.accuracy for equally long non-empty label vectors; other inputs rejected); the mean squared error inside root_mean_square_error (= Metrics.mse; the square root is taken of exactly that value); coefficient_determination (= Metrics.r2 over the rationals, the literal 1e-10 read as 1/10^10; the second disjunct of its constant-target test adds nothing in exact arithmetic)",
 }
 
 
